@@ -22,7 +22,8 @@ def gen_dir(r, tier, tmp):
     base_iop = None
     for si in range(nser):
         series = G.gen_series(r, tier, S=r.randint(1, 3), T=r.choice([1, 2]), V=1, ordering='explicit')
-        kind = r.choice(['new_uid', 'same_uid_new_number', 'same_but_orient_far', 'same_but_orient_near', 'new_protocol']) if si else 'first'
+        kind = r.choice(['new_uid', 'same_uid_new_number', 'same_but_orient_far', 'same_but_orient_near', 'new_protocol',
+                         'same_but_no_orient', 'same_but_no_protocol']) if si else 'first'
         if si == 0:
             first = series
             uid, num, prot = '1.2.3.100', 1, 'protA'
@@ -41,6 +42,8 @@ def gen_dir(r, tier, tmp):
                 iop = list(np.array(iop) + np.array([0, 0.01, 0, 0, 0, 0.01]))
             elif kind == 'same_but_orient_near':
                 iop = list(np.array(iop) + np.array([0, 1e-6, 0, 0, 0, 0]))
+            elif kind == 'same_but_no_protocol':
+                prot = None           # the element is absent: a group-by value of None
             series['iop'] = [float(x) for x in iop]
             # keep positions apart so that tuples do not collide when series fall into one group
             for f in series['files']:
@@ -49,11 +52,16 @@ def gen_dir(r, tier, tmp):
             f = copy.deepcopy(f)
             f['meta'].update({'SeriesInstanceUID': uid, 'SeriesNumber': num, 'ProtocolName': prot})
             f['meta'].pop('PatientName', None)
-            files.append((series, f, (uid, num, prot), [round(x, 9) for x in series['iop']], kind))
+            if prot is None:
+                f['meta'].pop('ProtocolName', None)
+            files.append((series, f, (uid, num, prot),
+                          None if kind == 'same_but_no_orient' else [round(x, 9) for x in series['iop']], kind))
     paths, info = [], {}
     for i, (series, f, key, iop, kind) in enumerate(files):
         f = dict(f, id=i)
         ds = G.dataset_of(series, f)
+        if iop is None:
+            del ds.ImageOrientationPatient
         p = os.path.join(tmp, 'f%03d.dcm' % i)
         write_ds(ds, p)
         paths.append(p)
@@ -157,12 +165,13 @@ def main(pid, tier):
                 ids = {(info[x[2]]['exact']) for x in grp}
                 if len(ids) != 1:
                     rep.failure('files with different group-by values share a group', dict(case, tag='group:apart'))
-                iops = [np.array(info[x[2]]['iop']) for x in grp]
-                if any(not np.allclose(iops[0], o, atol=5e-5) for o in iops):
+                iops = [info[x[2]]['iop'] for x in grp]
+                if any((iops[0] is None) != (o is None) or
+                       (o is not None and not np.allclose(np.array(iops[0]), np.array(o), atol=5e-5)) for o in iops):
                     rep.failure('files with orientation beyond tolerance share a group', dict(case, tag='group:apart'))
             byk = {}
             for p in paths:
-                byk.setdefault((info[p]['exact'], tuple(np.round(info[p]['iop'], 3))), []).append(p)
+                byk.setdefault((info[p]['exact'], None if info[p]['iop'] is None else tuple(np.round(info[p]['iop'], 3))), []).append(p)
             for members in byk.values():
                 if not any(set(members) <= set(grp) for grp in ref):
                     rep.failure('files equal on every key are in different groups', dict(case, tag='group:together'))
@@ -189,7 +198,7 @@ def main(pid, tier):
                 if 'fault' in info[p]:
                     items.append('n' if info[p]['fault'] == 'nonimage' else 'u')
                 else:
-                    iop = [int(round(x * 1e6)) for x in info[p]['iop']]
+                    iop = None if info[p]['iop'] is None else [int(round(x * 1e6)) for x in info[p]['iop']]
                     items.append([info[p]['id'], json.dumps(info[p]['exact']), [iop]])
             for warn in (True, False):
                 reqs.append({'op': 'group', 'warn': warn, 'items': items})
